@@ -655,3 +655,73 @@ Definition mp_type_num (t : mp_ptype) : N :=
   | MpUnknown => c_mp_TYPE_UNKNOWN | MpText => c_mp_TYPE_TEXT | MpFile => c_mp_TYPE_FILE
   | MpPreamble => c_mp_TYPE_PREAMBLE | MpEpilogue => c_mp_TYPE_EPILOGUE
   end.
+
+(* ------------------------------------------------------------------ boundary extraction *)
+Definition mp_s_boundary : bytes := [98;111;117;110;100;97;114;121]%N.                                         (* boundary *)
+Definition mp_s_mpfd : bytes := [109;117;108;116;105;112;97;114;116;47;102;111;114;109;45;100;97;116;97;59]%N. (* multipart/form-data; *)
+
+Definition mp_in (lo hi c : N) : bool := (lo <=? c)%N && (c <=? hi)%N.
+
+(* htp_mpartp_validate_boundary *)
+Definition mp_bchar_flag (c : N) : N :=
+  if mp_in 48 57 c || mp_in 97 122 c || mp_in 65 90 c || (c =? mp_DASH)%N then 0%N
+  else if existsb (fun x => (x =? c)%N) [39; 40; 41; 43; 95; 44; 46; 47; 58; 61; 63]%N then c_mp_HBOUNDARY_UNUSUAL
+  else c_mp_HBOUNDARY_INVALID.
+Definition mp_validate_boundary (b : bytes) (fl : N) : N :=
+  let fl1 := if (length b =? 0)%nat || (70 <? length b)%nat then mp_or fl c_mp_HBOUNDARY_INVALID else fl in
+  fold_left (fun a c => mp_or a (mp_bchar_flag c)) b fl1.
+
+(* htp_mpartp_validate_content_type *)
+Fixpoint mp_vct_loop (fuel : nat) (d : bytes) (counter : nat) (fl : N) : nat * N :=
+  match fuel with
+  | O => (counter, fl)
+  | S f =>
+    if mp_isnil d then (counter, fl) else
+    let i := index_of_mem_nocase d mp_s_boundary in
+    if (i <? 0)%Z then (counter, fl) else
+    let d1 := skipn (Z.to_nat i) d in
+    if negb (existsb (fun c => (c =? mp_EQ)%N) d1) then (counter, fl) else
+    let w := firstn 8 d1 in
+    let fl1 := if forallb (mp_in 97 122) w then fl else mp_or fl c_mp_HBOUNDARY_INVALID in
+    mp_vct_loop f (skipn 8 d1) (S counter) fl1
+  end.
+Definition mp_validate_content_type (ct : bytes) (fl : N) : N :=
+  let '(counter, fl1) := mp_vct_loop (S (length ct)) ct 0 fl in
+  if (1 <? counter)%nat then mp_or fl1 c_mp_HBOUNDARY_INVALID else fl1.
+
+(* htp_mpartp_find_boundary: (return code, boundary, flags) *)
+Definition mp_find_boundary (ct : bytes) : Z * option bytes * N :=
+  let i := index_of_mem_nocase ct mp_s_boundary in
+  if (i <? 0)%Z then (c_HTP_DECLINED, None, 0%N) else
+  let data := skipn (Z.to_nat i + 8) ct in
+  (* up to the equals sign *)
+  let pre := take_while (fun c => negb (c =? mp_EQ)%N) data in
+  let fl1 := fold_left (fun a c => mp_or a (if htp_is_space c then c_mp_HBOUNDARY_UNUSUAL else c_mp_HBOUNDARY_INVALID)) pre 0%N in
+  match skipn (length pre) data with
+  | [] => (c_HTP_DECLINED, None, mp_or fl1 c_mp_HBOUNDARY_INVALID)
+  | _ :: after =>
+    let sp := take_while htp_is_space after in
+    let fl2 := if mp_isnil sp then fl1 else mp_or fl1 c_mp_HBOUNDARY_UNUSUAL in
+    match skipn (length sp) after with
+    | [] => (c_HTP_DECLINED, None, mp_or fl2 c_mp_HBOUNDARY_INVALID)
+    | c :: r =>
+      let '(b, rest, fl3) :=
+        if (c =? mp_QUOTE)%N then
+          let q := take_while (fun x => negb (x =? mp_QUOTE)%N) r in
+          match skipn (length q) r with
+          | [] => (c :: q, [], mp_or (mp_or fl2 c_mp_HBOUNDARY_UNUSUAL) c_mp_HBOUNDARY_INVALID)   (* unterminated: keep the quote *)
+          | _ :: rest => (q, rest, mp_or fl2 c_mp_HBOUNDARY_UNUSUAL)
+          end
+        else
+          let u := take_while (fun x => negb (x =? mp_COMMA)%N && negb (x =? mp_SEMI)%N && negb (htp_is_space x)) (c :: r) in
+          (u, skipn (length u) (c :: r), fl2) in
+      if mp_isnil b then (c_HTP_DECLINED, None, mp_or fl3 c_mp_HBOUNDARY_INVALID) else
+      let seen_non_space := existsb (fun x => negb (htp_is_space x)) rest in
+      let seen_space := existsb htp_is_space rest in
+      let fl4 := if seen_non_space then mp_or fl3 c_mp_HBOUNDARY_INVALID
+                 else if seen_space then mp_or fl3 c_mp_HBOUNDARY_UNUSUAL else fl3 in
+      let fl5 := mp_validate_boundary b fl4 in
+      let fl6 := if begins_with_mem ct mp_s_mpfd then fl5 else mp_or fl5 c_mp_HBOUNDARY_INVALID in
+      (c_HTP_OK, Some b, mp_validate_content_type ct fl6)
+    end
+  end.
